@@ -103,6 +103,8 @@ def gen(tier, rng):
     r = rng.fork("node")
     yield nodegen.c10_script(r, "node-switch", 3, "switch", "tap", 80 if thorough else 40)
     yield nodegen.c10_script(r, "node-hub", 3, "hub", "tap", 40 if thorough else 20)
+    yield nodegen.c10_script(r, "node-normal-tun", 3, "normal", "tun", 40 if thorough else 20)      # the default mode on tun devices routes by claims only
+    yield nodegen.c10_script(r, "node-normal-tap", 3, "normal", "tap", 40 if thorough else 20)
     yield nodegen.c10_script(r, "node-router-tap", 3, "router", "tap", 40 if thorough else 20)
     yield nodegen.switch_timeout_script(r, "node-switch-timeout", pt=20, st=10)
     yield nodegen.close_script(r, "node-close-switch", mode="switch", dev="tap")       # "or P disconnects": learned addresses of a peer that said goodbye
